@@ -19,6 +19,25 @@ CLAIMED = {
          "contract-based deductive verification (govc WP over go/ssa, z3/cvc5)",
          "sync2.Map and list.Set methods are used through trusted sequential contracts in this revision; creating callbacks are assumed "
          "to satisfy the SingletonFactory.GetComponent contract (proved for the in-repo closures under C01-C03 when claimed). " + TRUST),
+
+ "C12": ("proof",
+         "SortOrderedComponents (generic body, T opaque) is verified for an arbitrary slice: the result is a permutation of the input "
+         "(ghost slot tags: [same-length], [from-input], [exactly-once]), classes in order, Order() non-decreasing within the two ordered "
+         "classes, unordered participants keep input order, input untouched; the comparator is verified against its defining equation and "
+         "the strict-weak-order side conditions of the sort are discharged at both call sites. Consumers: App.callRunners invokes exactly the "
+         "sorted sequence (loop invariant over the ghost invocation trace).",
+         "DESIGN.md section 5 C12",
+         "contract-based deductive verification (govc WP over go/ssa, z3/cvc5)",
+         "sort2.Slice is used through a trusted contract (A-SORT); Order() is assumed pure (A-CALLBACK); the pigeonhole step (injective map "
+         "[0,n)->[0,n) is a bijection) is mathematics outside SMT; parametricity of the generic body in T justifies ghost slot tags. " + TRUST),
+ "C13": ("proof",
+         "App.run / initConfiguration / initFactory / refresh / callRunners verified against a ghost start-up trace: the Run callback's "
+         "precondition (Refreshed and not Failed) is an obligation at its only call site, callRunners appends exactly the sorted runner "
+         "sequence to the trace and stops at the first error, run reports an error iff a phase or runner failed.",
+         "DESIGN.md section 5 C13",
+         "contract-based deductive verification (govc WP over go/ssa, z3/cvc5)",
+         "Configure.Initialize, Factory.PrepareComponents and Factory.Refresh are interface-level contracts (assumed here; Refresh setting "
+         "Refreshed only when every eager component is initialised is C05's obligation); non-nil injected runners is a named site assumption. " + TRUST),
 }
 
 NOT_APPLICABLE = {
